@@ -563,6 +563,10 @@ class WSStream:
             await self.ping_task.restart(self.task_group, self._send_pings)
 
     async def _send_rejection(self, message: WebsocketResponseBodyEvent) -> None:
+        if not isinstance(message.get("body", b""), (bytes, bytearray, memoryview)):
+            # Before anything (the response head) is sent, note also
+            # that bytes(5) is five NUL bytes rather than an error
+            raise TypeError("The body must be bytes")
         body_suppressed = suppress_body("GET", self.response["status"])
         if self.state == ASGIWebsocketState.HANDSHAKE:
             headers = build_and_validate_headers(self.response.get("headers", []))
